@@ -5,7 +5,6 @@ package props
 
 import (
 	"bytes"
-	"encoding/hex"
 	"encoding/json"
 	"fmt"
 	"os"
@@ -29,30 +28,24 @@ import (
 // C01
 
 type c01Feed struct {
-	History History    `json:"history"`
-	Blocks  [][]string `json:"blocks"` // hex tx bytes per block
-}
-
-func toHexBlocks(b [][][]byte) [][]string {
-	out := make([][]string, len(b))
-	for i := range b {
-		out[i] = []string{}
-		for _, tx := range b[i] {
-			out[i] = append(out[i], hex.EncodeToString(tx))
-		}
-	}
-	return out
+	History History     `json:"history"`
+	Blocks  []BlockFeed `json:"blocks"` // resolved governance ops and tx bytes per block
 }
 
 // runFed executes the history on a fresh node, delivering the given bytes; perturb adds inputs that must not matter.
-func runFed(h History, blocks [][][]byte, perturb bool, concurrent bool) []BlockTrace {
+func runFed(h History, blocks []BlockFeed, perturb bool, concurrent bool) []BlockTrace {
 	if perturb {
 		// construction order: build (and drop) other app instances first
 		for i := 0; i < 2; i++ {
 			chain.NewNode(chain.Opts{NumVals: 1 + i})
 		}
 	}
-	n := chain.NewNode(hOpts(h))
+	o := hOpts(h)
+	if perturb {
+		// node-local configuration differs from replica A's defaults
+		o.LocalConfig = map[string]interface{}{"evm.max-tx-gas-wanted": uint64(100000), "minimum-gas-prices": "5aISLM", "evm.tracer": "", "json-rpc.gas-cap": uint64(1000)}
+	}
+	n := chain.NewNode(o)
 	r := newHRunner(n)
 	var traces []BlockTrace
 	var wg sync.WaitGroup
@@ -79,7 +72,7 @@ func runFed(h History, blocks [][][]byte, perturb bool, concurrent bool) []Block
 	}
 	for i, b := range h.Blocks {
 		if perturb {
-			for _, tx := range blocks[i] {
+			for _, tx := range blocks[i].Txs {
 				n.CheckTx(tx)
 				n.App.CheckTx(abci.RequestCheckTx{Tx: tx, Type: abci.CheckTxType_Recheck})
 				func() {
@@ -96,7 +89,7 @@ func runFed(h History, blocks [][][]byte, perturb bool, concurrent bool) []Block
 				}()
 			}
 		}
-		tr, _ := r.RunBlock(b, blocks[i])
+		tr, _ := r.RunBlock(b, &blocks[i])
 		traces = append(traces, tr)
 	}
 	close(stop)
@@ -123,11 +116,11 @@ func runC01(st *ev.Stats, h History) string {
 	na := chain.NewNode(hOpts(h))
 	ra := newHRunner(na)
 	var ta []BlockTrace
-	var blocks [][][]byte
+	var blocks []BlockFeed
 	for _, b := range h.Blocks {
-		tr, bz := ra.RunBlock(b, nil)
+		tr, fd := ra.RunBlock(b, nil)
 		ta = append(ta, tr)
-		blocks = append(blocks, bz)
+		blocks = append(blocks, fd)
 	}
 	report := func(kind string, tb []BlockTrace) string {
 		ok, why, eventsOnly := compareTraces(ta, tb)
@@ -157,7 +150,7 @@ func runC01(st *ev.Stats, h History) string {
 	}
 	// separate OS process (different GOMAXPROCS, later wall clock)
 	if os.Getenv("VERIF_C01_NOCHILD") == "" {
-		tc, err := c01Child(c01Feed{History: h, Blocks: toHexBlocks(blocks)})
+		tc, err := c01Child(c01Feed{History: h, Blocks: blocks})
 		if err != nil {
 			st.Note("child replica could not run: " + err.Error())
 		} else if msg := report("other-process", tc); msg != "" {
@@ -223,15 +216,7 @@ func TestC01Child(t *testing.T) {
 	must(err)
 	var feed c01Feed
 	must(json.Unmarshal(bz, &feed))
-	blocks := make([][][]byte, len(feed.Blocks))
-	for i := range feed.Blocks {
-		for _, h := range feed.Blocks[i] {
-			b, err := hex.DecodeString(h)
-			must(err)
-			blocks[i] = append(blocks[i], b)
-		}
-	}
-	tr := runFed(feed.History, blocks, false, false)
+	tr := runFed(feed.History, feed.Blocks, false, false)
 	out, _ := json.Marshal(tr)
 	fmt.Printf("C01TRACES:%s\n", out)
 }
@@ -274,7 +259,7 @@ func runC20(st *ev.Stats, c C20Case) string {
 		want[k] = true
 	}
 	var traces []BlockTrace
-	var blocks [][][]byte
+	var blocks []BlockFeed
 	after := map[int]map[string]string{} // battery of the uninterrupted node after block i (only from the first restart point on)
 	afterContracts := map[int]int{}
 	minK := 1 << 30
@@ -330,7 +315,7 @@ func runC20(st *ev.Stats, c C20Case) string {
 				rn = rn.Restart()
 				rr.n = rn
 			}
-			tr, _ := rr.RunBlock(h.Blocks[i], blocks[i])
+			tr, _ := rr.RunBlock(h.Blocks[i], &blocks[i])
 			if ok, why := tr.Equal(traces[i]); !ok {
 				key := "divergence-after-restart"
 				if strings.Contains(why, "events-only") {
